@@ -4,7 +4,7 @@
 # demo fails with patch, the touched package's own tests still pass; then runs ./check for the given ids against it.
 export GOFLAGS=-mod=mod GOPROXY=off
 ID=$1; M=$2; MOD=$3; PKG=$4; RX=$5; shift 5
-R=/tmp/seed/$ID/repo; O=/tmp/seed/$ID/out/$M; L=/tmp/seed/$ID/out/$M/confirm.log
+B=${SEEDBASE:-/tmp/seed}; R=$B/$ID/repo; O=$B/$ID/out/$M; L=$B/$ID/out/$M/confirm.log
 : > $L
 git -C $R checkout -q -- . && git -C $R clean -fdq && git -C $R checkout -q --detach $(git -C /repo rev-parse HEAD)
 mkdir -p $R/$MOD/$PKG; cp $O/demo/*_test.go $R/$MOD/$PKG/ 2>/dev/null
